@@ -24,7 +24,17 @@ def run(ctx):
         refine.refine_batch(ctx, ctx.size(120, 1500), force=FORCE, pid=PID, name="trace-refinement(Tree.step vs DemeTree.run)"),
         runs.minimize_slice(ctx, PID, ctx.size(12, 150)),
         runs.monitor_batch(ctx, PID, ctx.size(250, 3000), force=FORCE),
+        # an objective that returns the best possible value (-inf when minimising, +inf when maximising) on a
+        # small part of the box: the reported best must be that value from the moment it is observed
+        refine.refine_batch(ctx, ctx.size(30, 300), salt=61, force=_jackpot, pid=PID, name="trace-refinement(objective with an infinitely good region)"),
+        runs.monitor_batch(ctx, PID, ctx.size(40, 400), salt=63, name="traced-runs-monitor-C04(objective with an infinitely good region)", force=_jackpot),
     ]
+
+
+def _jackpot(rng):
+    pop = ["sea", "seax", "ga", "adapt", "de", "ded", "shade", "mwea"]
+    return {"objective": "jackpot", "nlev": int(rng.choice([1, 2, 2])), "engines": {0: pop + ["lhs", "sobol"], 1: pop, 2: pop},
+            "gsc": {"kind": "MetaepochLimit", "limit": int(rng.integers(3, 8))}}
 
 
 def search(ctx, broken):
